@@ -223,8 +223,12 @@ def wrap(v, ty):
     return (v - lo) % span + lo
 
 
+class Token(str):
+    """an opaque value standing for an object the fold does not look into"""
+
+
 class Folder:
-    def __init__(self, facts, env=None, lets=None, on_call=None, effects=False, local_calls=0):
+    def __init__(self, facts, env=None, lets=None, on_call=None, effects=False, local_calls=2):
         self.local_calls = local_calls  # fold calls to crate-local functions by folding their bodies (depth bound)
         self.effects = effects  # loop-free statement execution (let mut, assignment, early return)
         self.facts = facts
@@ -276,6 +280,8 @@ class Folder:
             if e["op"] == "Not":
                 if isinstance(v, bool):
                     return not v
+                if not isinstance(v, int):
+                    raise Undecidable("`!` of an opaque value")
                 r = ty_range(e["ty"])
                 return wrap(~v, e["ty"]) if r else ~v
             if e["op"] == "Neg":
@@ -315,6 +321,8 @@ class Folder:
             return None
         if k == "If":
             c = self.fold(e["cond"])
+            if not isinstance(c, (bool, int)) or isinstance(c, Token):
+                raise Undecidable("branch on an opaque value")
             if c:
                 return self.fold(e["then"])
             if "else" in e:
@@ -480,7 +488,14 @@ class Folder:
                 raise Undecidable("parameter pattern")
             env.update(b)
         sub.env = env
-        return sub.run(body["body"])
+        res = sub.run(body["body"])
+        # `&mut local` out-parameters: what the callee stored through the reference is the caller's variable afterwards
+        for p, a in zip(body["params"], e["args"]):
+            if a.get("k") == "Borrow" and a.get("mut") and p["pat"].get("k") == "Bind" and "sub" not in p["pat"]:
+                tgt = strip(a["arg"]) if "arg" in a else None
+                if tgt and tgt.get("k") in ("Var", "Upvar") and tgt["name"] in self.env and p["pat"]["name"] in sub.env:
+                    self.env[tgt["name"]] = sub.env[p["pat"]["name"]]
+        return res
 
     def _iterable(self, v):
         if isinstance(v, list):
@@ -538,6 +553,31 @@ class Folder:
             if plain(x) and plain(y) and type(x) == type(y):
                 o = ordering((x > y) - (x < y))
                 return o if last == "cmp" else {"__adt__": "core::option::Option", "__variant__": "Some", "#0": o, "0": o}
+        if last in ("eq", "ne") and "cmp::PartialEq" in cc and len(a) == 2:
+            def valuelike(v):
+                if isinstance(v, Token):
+                    return False
+                if isinstance(v, (int, bool, str)):
+                    return True
+                if isinstance(v, (tuple, list)):
+                    return all(valuelike(x) for x in v)
+                if isinstance(v, dict) and "__variant__" in v:
+                    return all(valuelike(x) for k, x in v.items() if k.startswith("#"))
+                return False
+
+            def norm(v):
+                if isinstance(v, dict):
+                    return (v.get("__variant__"),) + tuple(norm(x) for k, x in sorted(v.items()) if k.startswith("#"))
+                if isinstance(v, (tuple, list)):
+                    return tuple(norm(x) for x in v)
+                return int(v) if isinstance(v, bool) else v
+            x, y = self.fold(a[0]), self.fold(a[1])
+            if valuelike(x) and valuelike(y):
+                return (norm(x) == norm(y)) == (last == "eq")
+        if last in ("is_some", "is_none", "is_ok", "is_err") and cc.startswith(("core::option::Option", "core::result::Result")) and len(a) == 1:
+            v = self.fold(a[0])
+            if isinstance(v, dict) and "__variant__" in v:
+                return v["__variant__"] == {"is_some": "Some", "is_none": "None", "is_ok": "Ok", "is_err": "Err"}[last]
         if last in ("then_with", "then") and cc.startswith("core::cmp::Ordering") and len(a) == 2:
             o = self.fold(a[0])
             if isinstance(o, dict) and o.get("__adt__") == "core::cmp::Ordering":
@@ -666,6 +706,24 @@ class Folder:
                     return [x for x in seq if self.apply_closure(arg, [x])]
         return NotImplemented
 
+    def exec_stmts(self, stmts):
+        """execute raw THIR statements (Let / Expr) in the current environment and leave the bindings in place: used to
+        fold a loop-free prefix or suffix of a function body"""
+        for st in stmts:
+            if st["k"] == "Let":
+                if "init" not in st:
+                    raise Undecidable("let without initialiser")
+                v = self.fold(st["init"])
+                ok, binds = self._pat_match(st["pat"], v)
+                if not ok:
+                    if "else" in st:
+                        for x in (st["else"] if isinstance(st["else"], list) else [st["else"]]):
+                            self.fold(x)
+                    raise Undecidable("refutable let")
+                self.env.update(binds)
+            else:
+                self.fold(st["expr"])
+
     def run(self, body):
         """execute a loop-free body; the result is its value or the early-returned value"""
         try:
@@ -740,8 +798,10 @@ class Folder:
         return v
 
     def _bin(self, op, a, b, e):
-        if isinstance(a, bool) and op in ("BitAnd", "BitOr", "BitXor", "Eq", "Ne"):
-            pass
+        if op not in ("Eq", "Ne") and not (isinstance(a, (int, bool)) and isinstance(b, (int, bool))):
+            raise Undecidable("arithmetic on an opaque value")
+        if op in ("Eq", "Ne") and (isinstance(a, Token) or isinstance(b, Token)):
+            raise Undecidable("comparison of an opaque value")
         if op == "Add":
             return self._chk(a + b, e)
         if op == "Sub":
@@ -783,10 +843,6 @@ class Folder:
         if op == "Ge":
             return a >= b
         raise Undecidable("binary op " + op)
-
-
-class Token(str):
-    """an opaque value standing for an object the fold does not look into"""
 
 
 def call_trace(facts, fn, env, watch, local_calls=0):
@@ -1282,7 +1338,14 @@ def stmts(e, lets=None):
         return [("if", sx(e["cond"], lets) if e["cond"]["k"] != "Let" else ("iflet", sx(e["cond"]["expr"], lets), tuple(pat_names(e["cond"]["pat"])), _pat_desc(e["cond"]["pat"])),
                  stmts(e["then"], lets), stmts(e["else"], lets) if "else" in e else [], sp)]
     if k == "Loop":
-        return [("loop", stmts(e["body"], lets), sp)]
+        body = stmts(e["body"], lets)
+        # `loop { if c { break; } rest.. }` is `while !c { rest.. }`, which desugars to loop { if !c { rest.. } else { break } }
+        if len(body) >= 1 and body[0][0] == "if" and isinstance(body[0][1], tuple) and body[0][1][0] != "iflet" and len(body[0][2]) == 1 \
+                and body[0][2][0][0] == "break" and not body[0][3] and len(body) > 1:
+            c = body[0][1]
+            c = c[2] if (c[0] == "un" and c[1] == "Not") else ("un", "Not", c)
+            body = [("if", c, body[1:], [("break", body[0][2][0][1])], body[0][4])]
+        return [("loop", body, sp)]
     if k == "Assign":
         return [("assign", sx(e["lhs"], lets), sx(e["rhs"], lets), sp)]
     if k == "AssignOp":
@@ -1438,6 +1501,26 @@ def fn_stmts_deep(facts, name, depth=2, only=None):
                 if c not in seen and (only is None or only(c)):
                     seen.add(c)
                     todo.append((c, d - 1))
+    return out
+
+
+def negate(c):
+    return c[2] if (isinstance(c, tuple) and c[0] == "un" and c[1] == "Not") else ("un", "Not", c)
+
+
+def guarded_blocks(sts):
+    """[(condition sx, statements)] for the top-level shapes `if c { A } else { B }` -> (c, A), (!c, B) and
+    `if c { return; } rest..` -> (!c, rest): the statements that run exactly when the condition holds"""
+    out = []
+    for k, st in enumerate(sts):
+        if st[0] == "if" and isinstance(st[1], tuple) and st[1][0] != "iflet":
+            exits = len(st[2]) >= 1 and st[2][-1][0] == "return" and not st[3]
+            if exits and len(st[2]) == 1:
+                out.append((negate(st[1]), sts[k + 1:]))
+            else:
+                out.append((st[1], st[2]))
+                if st[3]:
+                    out.append((negate(st[1]), st[3]))
     return out
 
 
